@@ -172,8 +172,9 @@ def gen_full(rng, updates, want):
             s.add("h", f[:cut])
     elif want == "reset":
         return s.end("R")
-    # what follows is never looked at (refused) / swallowed (short length) / completes the partial frame - the model does the framing
-    if want in ("refused", "short") or (want == "partial" and rng.chance(30)):
+    # what follows is never looked at (refused) / swallowed (short length). Nothing follows a partial frame in full mode: octets that
+    # complete it make an arbitrary malformed UPDATE, on which C04's decoder and routecore may differ (C04's own findings)
+    if want in ("refused", "short"):
         for _ in range(rng.range(0, 3)):
             s.add("b", bytes.fromhex(rng.choice(updates)) if rng.chance(60) else KEEPALIVE)
     return s.end(rng.weighted([("C", 70), ("R", 30)]))
